@@ -449,6 +449,9 @@ class Extractor:
         if 'cfg(test)' in attrs_text:
             self.rule('R1', sf.rel, sf.line_of(it.start), 'drop #[cfg(test)] item %s' % (it.name,))
             return
+        if 'cfg(feature="bourse_verif")' in attrs_text:
+            self.rule('R1', sf.rel, sf.line_of(it.start), 'drop verification hook (feature bourse_verif, off in normal builds) item %s' % (it.name,))
+            return
         k = it.kind
         if k == 'use':
             self.rule('R1', sf.rel, sf.line_of(it.start), 'drop use')
@@ -707,6 +710,9 @@ class Extractor:
         for sub in it.items:
             if 'cfg(test)' in ' '.join(a[2] for a in sub.attrs).replace(' ', ''):
                 self.rule('R1', sf.rel, sf.line_of(sub.start), 'drop #[cfg(test)] member %s%s' % (prefix, sub.name))
+                continue
+            if 'cfg(feature="bourse_verif")' in ' '.join(a[2] for a in sub.attrs).replace(' ', ''):
+                self.rule('R1', sf.rel, sf.line_of(sub.start), 'drop verification hook (feature bourse_verif, off in normal builds) member %s%s' % (prefix, sub.name))
                 continue
             if sub.kind == 'fn':
                 q = prefix + sub.name
